@@ -67,31 +67,36 @@ Definition c10_run_class (alive probe stopped : bool) (panics : Z)
   else if negb (forallb (fun g => snd (fst g) =? 0) goods) then 6%N
   else 0%N.
 
-(* discovery: deliveries observed = (receiver, connection's remote address id, response tag);
-   sent = (token, sender address id, tag); registered = (token, receiver).  Every response whose token is
-   registered must be delivered exactly once to that receiver with the sender's address; nothing else. *)
+(* discovery, step by step as the harness drives it: a discovery request registers its receiver for its
+   token until it returns; every response sent to the server must be handed to the receiver registered for
+   its token at that time -- exactly once, with the connection of the peer that sent it (identified by the
+   sender's port) -- and to nobody else; responses with an unregistered token go to the application. *)
+Inductive dstep :=
+| DS_Start (tok : list Z) (rcv : Z) (o_exists : bool)        (* observed: ErrKeyAlreadyExists *)
+| DS_End (tok : list Z)
+| DS_Resp (sender : Z) (tok : list Z) (tag : Z)
+          (o_deliv : list (Z * Z * Z))                         (* observed: (receiver, port of the connection passed, tag) *)
+          (o_app : bool)                                       (* observed: the application handler saw it *)
+| DS_Ping.                                                     (* other traffic of a responder (flow-control ping) *)
+
 Definition deliv_eqb (a b : Z * Z * Z) : bool :=
   (fst (fst a) =? fst (fst b)) && (snd (fst a) =? snd (fst b)) && (snd a =? snd b).
 Fixpoint tok_lookup (t : list (list Z * Z)) (tok : list Z) : option Z :=
   match t with [] => None | (k, r) :: rest => if bytes_eqb k tok then Some r else tok_lookup rest tok end.
-Definition expected_deliveries (registered : list (list Z * Z)) (sent : list (list Z * Z * Z)) : list (Z * Z * Z) :=
-  flat_map (fun x => match tok_lookup registered (fst (fst x)) with
-                     | Some r => [(r, snd (fst x), snd x)] | None => [] end) sent.
-Fixpoint remove_one (x : Z * Z * Z) (l : list (Z * Z * Z)) : option (list (Z * Z * Z)) :=
-  match l with
-  | [] => None
-  | y :: r => if deliv_eqb x y then Some r else match remove_one x r with Some r' => Some (y :: r') | None => None end
+
+Fixpoint disc_ok (reg : list (list Z * Z)) (steps : list dstep) : bool :=
+  match steps with
+  | [] => true
+  | DS_Start tok rcv ex :: r =>
+      match tok_lookup reg tok with
+      | Some _ => ex && disc_ok reg r
+      | None => negb ex && disc_ok ((tok, rcv) :: reg) r
+      end
+  | DS_End tok :: r => disc_ok (filter (fun x => negb (bytes_eqb (fst x) tok)) reg) r
+  | DS_Resp sender tok tag od oa :: r =>
+      match tok_lookup reg tok with
+      | Some rcv => list_eqb deliv_eqb od [(rcv, sender, tag)] && negb oa
+      | None => match od with [] => oa | _ => false end
+      end && disc_ok reg r
+  | DS_Ping :: r => disc_ok reg r
   end.
-Fixpoint multiset_eqb (a b : list (Z * Z * Z)) : bool :=
-  match a with
-  | [] => match b with [] => true | _ => false end
-  | x :: r => match remove_one x b with Some b' => multiset_eqb r b' | None => false end
-  end.
-(* per receiver the order of arrival from one sender is kept; across senders it is free: multiset equality
-   plus per-(receiver,sender) order *)
-Definition proj_rs (r s : Z) (l : list (Z * Z * Z)) : list Z :=
-  map snd (filter (fun x => (fst (fst x) =? r) && (snd (fst x) =? s)) l).
-Definition c10_disc_ok (registered : list (list Z * Z)) (sent : list (list Z * Z * Z)) (observed : list (Z * Z * Z)) : bool :=
-  let ex := expected_deliveries registered sent in
-  multiset_eqb ex observed
-  && forallb (fun x => list_eqb Z.eqb (proj_rs (fst (fst x)) (snd (fst x)) ex) (proj_rs (fst (fst x)) (snd (fst x)) observed)) ex.
